@@ -24,7 +24,7 @@ ID = "C19"
 LEVEL_RULE = (
     "families enumerated simplest-first: (rt) every array shape up to the rank/size bound x event rank x every "
     "subset of batch dims x every assignment of distinct names to it x dtype, and inside each case every injective "
-    "placement of the packed names on negative dims -1..-(k+1); (al) every ordered subset of the name pool as source "
+    "placement of the k packed names on negative dims -1..-(k+1) (k = 5: -1..-5); (al) every ordered subset of the name pool as source "
     "order x every ordered subset of the source's inputs as align argument x construct kind x interpretation; "
     "(at) every pair of ordered subsets of the pool x event shapes x expand; (mat) every term of the stated pool. "
     "non-trivial = a named non-unit dim was packed and unpacked / the requested order differs from the source order "
@@ -86,7 +86,7 @@ def bounds(tier):
         "rt_event_ranks": [0, 1, 2],
         "rt_dtypes": ["real", "bint"],
         "rt_name_assignments": "every subset of batch dims x every permutation of the first k names of 'abcde'",
-        "rt_placements": "every injective map of the packed names into dims -1..-(k+1)",
+        "rt_placements": "every injective map of the k packed names into dims -1..-(k+1) (k <= 4); every permutation of -1..-5 for k = 5",
         "rtn": "output=None: every non-empty key subset of -1..-rank (x name permutations), real dtype",
         "al_pool": dict(POOL),
         "al_kinds": list(TENSOR_KINDS + LAZY_KINDS + OTHER_KINDS),
@@ -370,10 +370,11 @@ def ref_unpack(xb, shape, nb, packed, n2d):
     eshape = [1] * m
     for name, size, d in packed:
         eshape[m + n2d[name]] = size
-    grid = np.indices(eshape)
-    flat = np.zeros(eshape, dtype=np.int64)
+    flat = np.zeros(eshape, dtype=np.int64)  # flat[batch index] = position of the source cell: sum of index*stride
     for name, size, d in packed:
-        flat = flat + grid[m + n2d[name]] * st[d]
+        along = [1] * m
+        along[m + n2d[name]] = size
+        flat = flat + (np.arange(size, dtype=np.int64) * st[d]).reshape(along)
     return xb[flat]
 
 
@@ -481,10 +482,16 @@ def check_rt(case, seed):
     st = batch_strides(shape, nb)
     dim_of = {n: d for n, _, d in packed}
     xb = x.reshape((_prod(shape[:nb]),) + evshape)
-    npoints = 0
-    for idx in itertools.product(*[range(want_inputs[n]) for n in order]):
+    # value at every named point, read directly in .inputs order: cell position = sum of index * stride
+    flat_all = np.zeros([want_inputs[n] for n in order], dtype=np.int64)
+    for pos, n in enumerate(order):
+        along = [1] * len(order)
+        along[pos] = want_inputs[n]
+        flat_all = flat_all + (np.arange(want_inputs[n], dtype=np.int64) * st[dim_of[n]]).reshape(along)
+    npoints = int(flat_all.size)
+    all_equal = bool(np.array_equal(np.asarray(f.data), xb[flat_all]))
+    for idx in ([] if all_equal else itertools.product(*[range(want_inputs[n]) for n in order])):
         flat = sum(i * st[dim_of[n]] for n, i in zip(order, idx))
-        npoints += 1
         if not np.array_equal(np.asarray(f.data[idx]), xb[flat]):
             point = dict(zip(order, idx))
             name_at = {d: n for n, _, d in packed}
@@ -498,7 +505,7 @@ def check_rt(case, seed):
     names = [n for n, _, _ in packed]
     k = len(names)
     placements = [inv]
-    for dims in itertools.permutations(range(1, k + 2), k):
+    for dims in itertools.permutations(range(1, k + 2 if k <= 4 else k + 1), k):
         placements.append({n: -d for n, d in zip(names, dims)})
     classes = set()
     for pi, n2d in enumerate(placements):
